@@ -540,6 +540,7 @@ func BatchFunc[T any](
 				if len(batch) > 0 {
 					// Time already elapsed, just deliver the batch now.
 					if time.Since(batchStart) > maxWait {
+						stopTimer()
 						if !flush() {
 							return
 						}
